@@ -25,23 +25,35 @@ Lemma free_spec e w : nth_error (erun e) w = Some None -> worker_free e w = true
 Proof. unfold worker_free. intros ->. reflexivity. Qed.
 
 (* ---- shape is an invariant ---- *)
+Lemma take_shape nw e w v q' t : shape nw e -> shape nw (set_run (set_q e v q') w (Some t)).
+Proof. intros [Hq Hr]. split; cbn [set_run set_q eqs erun]; rewrite set_nth_length; assumption. Qed.
+
 Lemma wstep_shape fixed nw e s : shape nw e -> shape nw (wstep fixed e s).
 Proof.
-  intros [Hq Hr]. destruct s as [t|w|w|w v|w|w]; cbn [wstep]; try (split; assumption).
-  - destruct (worker_free e w); [|split; assumption].
-    destruct (nth_error (eqs e) w); [|split; assumption].
-    destruct (pop_local fixed w0) as [[t|] q']; [|split; assumption].
-    split; cbn [set_run set_q eqs erun]; rewrite set_nth_length; assumption.
-  - destruct (worker_free e w); [|split; assumption].
-    destruct (eglob e); [split; assumption|].
+  intros Hs. pose proof Hs as [Hq Hr].
+  destruct s as [t| |w|w|w|w v|w v|w v|w|w]; cbn [wstep]; try exact Hs.
+  - destruct (worker_free e w); [|exact Hs].
+    destruct (nth_error (eqs e) w) as [q|]; [|exact Hs].
+    destruct (pop_local fixed q) as [[t|] q']; [|exact Hs]. apply take_shape; exact Hs.
+  - destruct (fixed && worker_free e w); [|exact Hs].
+    destruct (nth_error (eqs e) w) as [q|]; [|exact Hs].
+    destruct (qsteal q); [exact Hs|]. apply take_shape; exact Hs.
+  - destruct (worker_free e w); [|exact Hs].
+    destruct (eglob e); [exact Hs|].
     split; cbn [set_run eqs erun]; [assumption|rewrite set_nth_length; assumption].
-  - destruct (worker_free e w && negb (Nat.eqb w v)); [|split; assumption].
-    destruct (nth_error (eqs e) v); [|split; assumption].
-    destruct (steal w0) as [[t|] q']; [|split; assumption].
-    split; cbn [set_run set_q eqs erun]; rewrite set_nth_length; assumption.
-  - destruct (nth_error (eqs e) w); [|split; assumption].
+  - destruct (worker_free e w && negb (Nat.eqb w v)); [|exact Hs].
+    destruct (nth_error (eqs e) v) as [q|]; [|exact Hs].
+    destruct (steal q) as [[t|] q']; [|exact Hs]. apply take_shape; exact Hs.
+  - destruct (worker_free e w && negb (Nat.eqb w v)); [|exact Hs].
+    destruct (nth_error (eqs e) v) as [q|]; [|exact Hs].
+    destruct (qsteal q); [exact Hs|]. apply take_shape; exact Hs.
+  - destruct (worker_free e w && negb (Nat.eqb w v)); [|exact Hs].
+    destruct (nth_error (eqs e) v) as [q|]; [|exact Hs].
+    destruct (1 <? nlen (qlocal q)); [|exact Hs].
+    destruct (remove_last_stealable (qlocal q)) as [[t l']|]; [|exact Hs]. apply take_shape; exact Hs.
+  - destruct (nth_error (eqs e) w); [|exact Hs].
     split; cbn [set_q eqs erun]; [rewrite set_nth_length|]; assumption.
-  - destruct (nth_error (erun e) w) as [[t|]|]; try (split; assumption).
+  - destruct (nth_error (erun e) w) as [[t|]|]; try exact Hs.
     split; cbn [eqs erun]; [assumption|rewrite set_nth_length; assumption].
 Qed.
 
@@ -60,7 +72,7 @@ Lemma run_shape fixed cap nw steps : forall e acc e' acc',
 Proof.
   induction steps as [|s r IH]; intros e acc e' acc' H Hs; cbn [run] in H.
   - inversion H; subst; exact Hs.
-  - destruct s as [t|w|w|w v|w|w]; try (eapply IH; [exact H|apply wstep_shape; exact Hs]).
+  - destruct s as [t| |w|w|w|w v|w v|w v|w|w]; try (eapply IH; [exact H|apply wstep_shape; exact Hs]).
     destruct (submit cap e t) as [ok e1] eqn:E. eapply IH; [exact H|]. eapply submit_shape; eassumption.
 Qed.
 
@@ -78,7 +90,7 @@ Lemma run_no_submit fixed cap st : forall e acc,
 Proof.
   induction st as [|s r IH]; intros e acc H; cbn [run fold_left]; [reflexivity|].
   unfold no_submit in H. cbn [forallb] in H. apply andb_prop in H. destruct H as [Hs Hr].
-  destruct s as [t|w|w|w v|w|w]; try (apply IH; exact Hr). discriminate.
+  destruct s as [t| |w|w|w|w v|w v|w v|w|w]; try (apply IH; exact Hr); discriminate.
 Qed.
 
 (* ---- let every running task finish ---- *)
@@ -141,7 +153,7 @@ Proof.
   induction st as [|s r IH]; intros e H; cbn [fold_left]; [reflexivity|].
   unfold no_submit in H. cbn [forallb] in H. apply andb_prop in H. destruct H as [Hs Hr].
   rewrite (IH _ Hr). pose proof (wstep_conserves true e s) as W.
-  destruct s; try exact W. discriminate.
+  destruct s; try exact W; discriminate.
 Qed.
 
 Lemma no_submit_finish ws : no_submit (map Finish ws).
